@@ -11,7 +11,7 @@ batch sizes and stepping API (step / step_multiple / run). Faults: reject_step p
 import copy
 import hashlib
 
-from .. import gen, shrink, world, replica
+from .. import gen, shrink, world, replica, common
 from ..common import Violation, HarnessError
 from ..netlist import Netlist, script_shape
 from ..refsim import RefSim, DoubleWrite
@@ -38,7 +38,7 @@ def gen_case(streams, tier):
     g = streams['gen']
     config = g.choice(CONFIGS)
     if config == 'pre':
-        cfg = gen.make_cfg(nets=(3, 20), mem_mid_aw=0.15)
+        cfg = gen.make_cfg(nets=(3, 20), mem_mid_aw=0.15, rom_holes_prob=0.35)
     else:
         cfg = gen.make_cfg(nets=(2, 10), classes=g.choice([['bit', 'small'], ['small']]),
                            max_mul_width=5, mem_wide_aw=0.0, mem_aw=(1, 4), rom_aw_max=3,
@@ -47,6 +47,9 @@ def gen_case(streams, tier):
     script, stage = gen.maybe_stage(g, script, 0.2, ['sim', 'fast', 'compiled', 'export', 'analysis', 'optimized_copy', 'copy'])
     ncyc = streams['inputs'].randint(1, 10)
     with_compiled = g.random() < (0.3 if tier == 'quick' else 0.4)
+    holes = any(m.get('rom') and m['rom'].get('holes') for m in script['mems'])
+    if holes:
+        with_compiled = False      # CompiledSimulation is not built for ROMs without data
     has_mem = any(not m.get('rom') for m in script['mems'])
     init = gen.gen_init(g, script, allow_default=not (with_compiled and has_mem))
     labels = ['sim', 'fast'] + (['compiled'] if with_compiled else [])
@@ -60,7 +63,8 @@ def gen_case(streams, tier):
     if ins and config in ('pre', 'synth_merged', 'optimized') and f.random() < 0.4:
         n, w = f.choice(ins)
         faults.append({'kind': 'reject_step', 'at': f.randrange(ncyc), 'wire': n,
-                       'value': (1 << w) + f.getrandbits(3), 'replica': f.choice(labels + [None])})
+                       'value': (1 << w) + f.getrandbits(3) if f.random() < 0.7 else 'missing',
+                       'replica': f.choice(labels + [None])})
     case = {
         'prop': ID, 'config': config, 'script': script, 'init': init,
         'cycles': gen.gen_inputs(streams['inputs'], script, ncyc),
@@ -69,8 +73,17 @@ def gen_case(streams, tier):
         'state_seed': g.getrandbits(32),
         'stage': stage,
     }
+    one_bit = [w['n'] for w in script['wires'] if w['w'] == 1 and w['k'] in 'WRI']
+    case['assert_wire'] = None
+    if config == 'pre' and not with_compiled and one_bit and f.random() < 0.25:
+        # a planted rtl_assert: when it fires every replica's caller catches it and goes on
+        case['assert_wire'] = f.choice(one_bit)
+    if config == 'pre' and holes:
+        case['cycles'], hole_faults = gen.split_rom_holes(script, init, case['cycles'])
+        case['faults'] += hole_faults
+        ncyc = len(case['cycles'])
     case['interleave'] = replica.gen_interleaving(
-        streams['sched'], labels, ncyc, [x['at'] for x in faults])
+        streams['sched'], labels, ncyc, [x['at'] for x in case['faults']])
     return case
 
 
@@ -129,6 +142,10 @@ def run(case, res):
     sched = case['sched']
     world.setup_world(sched)
     b = world.build_dut(script, sched, stage=world.stage_with_hook(case.get('stage'), res))
+    if case.get('assert_wire') in b.wires and case['config'] == 'pre':
+        with pyrtl.set_working_block(b.block, no_sanity_check=True):
+            pyrtl.rtl_assert(b.wires[case['assert_wire']], common.PlantedAssertion('planted'),
+                             block=b.block)
     t = transform(case, b)
     if t is None:
         res.probes.hit('transform_refused:' + case['config'])
@@ -188,6 +205,9 @@ def run(case, res):
         return None
 
     v = replica.run_interleaved(reps, tape, case['interleave'], faults, res, on_cycle)
+    fired = sum(getattr(r, 'fired', 0) for r in reps)
+    if fired:
+        res.faults.hit('assertion_fired_and_caught', fired)
     if v:
         return v
     if state['dw'] is not None:
